@@ -4,6 +4,7 @@ walk depot → customers in order → depot, for every action list that does not
 (`force_start_at_depot = False`), and for every action list `0 :: cs` with `cs` depot-free (forced
 start; the code prepends the depot once more, which costs `D 0 0 = 0`).  Distances symmetric.
 -/
+import Rl4co.Spec.Tsp
 import Rl4co.Env.Pdp
 import Rl4co.Spec.Pdp
 
@@ -52,3 +53,15 @@ theorem zero_not_mem_of_feasible {h : Nat} {cs : List Nat} (hf : Spec.Pdp.Feasib
 example : reward ⟨1, false, fun a b => if a = b then 0 else (a + b : Int)⟩ [1, 2] = -(1 + 3 + 2) := by decide
 
 end Rl4co.Pdp
+
+namespace Rl4co.Spec.Pdp
+/-- the PDP objective is the TSP objective of the closed walk `depot :: customers` -/
+theorem objective_eq_tsp (D : Nat → Nat → Int) (cs : List Nat) (h0 : 0 ∉ cs) :
+    objective D cs = Rl4co.Spec.Tsp.objective D (0 :: cs) := by
+  have : cs.filter (fun a => a != 0) = cs := by
+    apply List.filter_eq_self.mpr
+    intro a ha
+    have : a ≠ 0 := fun h => h0 (h ▸ ha)
+    simpa using this
+  simp only [objective, this, Rl4co.Spec.Tsp.objective]
+end Rl4co.Spec.Pdp
